@@ -62,7 +62,7 @@ import (
 	ref "verifref"
 )
 
-var c18Kinds = []string{"sign", "verify", "vexp", "vcache", "batch", "keygen", "x25519", "x25519base", "mulbase", "triple", "srsign", "srverify", "h2c", "merlin", "vrfprove", "vrfverify"}
+var c18Kinds = []string{"sign", "verify", "vexp", "vcache", "batch", "keygen", "x25519", "x25519base", "mulbase", "triple", "srsign", "srverify", "h2c", "merlin", "vrfprove", "vrfverify", "pointuse"}
 
 type c18Op struct {
 	Kind string
@@ -99,7 +99,7 @@ type c18WCase struct {
 
 var c18MixedKinds = []string{
 	"vcache", "vcache", "vcache", "vcache", "vexp", "vexp", "vexp", "batch", "batch", "sign", "sign", "verify", "verify",
-	"keygen", "x25519", "x25519base", "mulbase", "mulbase", "triple", "triple", "srsign", "srverify", "h2c", "h2c", "merlin", "vrfprove", "vrfverify"}
+	"keygen", "x25519", "x25519base", "mulbase", "mulbase", "triple", "triple", "srsign", "srverify", "h2c", "h2c", "merlin", "vrfprove", "vrfverify", "pointuse", "pointuse"}
 
 func c18GenOp(t *rapid.T, kinds []string, keys []int, badOneIn int) c18Op {
 	op := c18Op{}
@@ -321,6 +321,11 @@ func c18Touches(op c18Op) []string {
 		return []string{"triple-scalar-mul(code path and package-level tables)"}
 	case "vrfprove", "vrfverify":
 		return []string{"ecvrf(package-level suite strings and padding)"}
+	case "pointuse":
+		if op.X%9 >= 7 {
+			return []string{fmt.Sprintf("shared-ristretto-point-%d(read-only operand)", op.K%2)}
+		}
+		return []string{fmt.Sprintf("shared-edwards-point-%d(read-only operand)", op.K%3)}
 	case "h2c":
 		if op.X%8 >= 6 {
 			return []string{"h2c(shared DST > 255 bytes)"}
@@ -694,6 +699,11 @@ type c18Shared struct {
 	ver  *cache.Verifier
 	sctx *sr25519.SigningContext
 	base *merlin.Transcript
+	// points that the goroutines only READ (operands of additions and
+	// multiplications, serialised, compared): freshly computed, so in a
+	// projective representation with Z != 1 and never serialised before
+	pts  [3]*curve.EdwardsPoint
+	rpts [2]*curve.RistrettoPoint
 }
 
 func c18NewShared(c c18WCase, m *c18Mat) *c18Shared {
@@ -709,6 +719,16 @@ func c18NewShared(c c18WCase, m *c18Mat) *c18Shared {
 	s.sctx = sr25519.NewSigningContext([]byte(c18Ctx))
 	s.base = merlin.NewTranscript("c18 base")
 	s.base.AppendMessage("seed", h.Expand(c.Seed^0x4000, 48))
+	for i := range s.pts {
+		sc, err := scalar.NewFromBytesModOrderWide(h.Expand(c.Seed^uint64(0x6000+i), 64))
+		if err != nil {
+			panic(err)
+		}
+		s.pts[i] = curve.NewEdwardsPoint().MulBasepoint(curve.ED25519_BASEPOINT_TABLE, sc)
+		if i < len(s.rpts) {
+			s.rpts[i] = curve.NewRistrettoPoint().MulBasepoint(curve.RISTRETTO_BASEPOINT_TABLE, sc)
+		}
+	}
 	return s
 }
 
@@ -790,6 +810,12 @@ func c18GroundTruth(op c18Op, m *c18Mat, seq []byte) (ok bool, what string) {
 		w, err := m.std[op.K%6].Sign(nil, m.msg(op.M, op.Var), so)
 		if err != nil || !bytes.Equal(seq, w) {
 			return false, fmt.Sprintf("deterministic signature differs from crypto/ed25519's: got %x want %x (%v)", seq, w, err)
+		}
+	case "pointuse":
+		if op.X%9 <= 1 {
+			if w := ref.MulBase(ref.SMod(ref.FromLE(h.Expand(m.seed^uint64(0x6000+op.K%3), 64)))).Encode(); !bytes.Equal(seq, w) {
+				return false, fmt.Sprintf("shared point %d serialises as %x, the reference says %x", op.K%3, seq, w)
+			}
 		}
 	case "vrfprove":
 		if (op.X>>1)&2 == 0 && len(seq) >= 80 {
@@ -987,6 +1013,53 @@ func c18Exec(op c18Op, m *c18Mat, sh *c18Shared) []byte {
 			}
 		}
 		return out
+	case "pointuse":
+		// the shared point is a read-only operand: whatever a call does with it
+		// (normalise, cache, ...) must not be visible to the other goroutines
+		enc := func(p *curve.EdwardsPoint) []byte {
+			var c curve.CompressedEdwardsY
+			c.SetEdwardsPoint(p)
+			return append([]byte(nil), c[:]...)
+		}
+		ls, err := scalar.NewFromBytesModOrderWide(h.Expand(m.seed^op.X^0x41, 64))
+		if err != nil {
+			panic(err)
+		}
+		P := sh.pts[op.K%3]
+		switch op.X % 9 {
+		case 0:
+			b, err := P.MarshalBinary()
+			if err != nil {
+				return []byte("ERR")
+			}
+			return b
+		case 1:
+			return enc(P)
+		case 2:
+			local := curve.NewEdwardsPoint().MulBasepoint(curve.ED25519_BASEPOINT_TABLE, ls)
+			return enc(curve.NewEdwardsPoint().Add(local, P))
+		case 3:
+			local := curve.NewEdwardsPoint().MulBasepoint(curve.ED25519_BASEPOINT_TABLE, ls)
+			return append(c18Bool(P.Equal(local) == 1), c18Bool(P.IsSmallOrder())...)
+		case 4:
+			return enc(curve.NewEdwardsPoint().MulByCofactor(P))
+		case 5:
+			return enc(curve.NewEdwardsPoint().Mul(P, ls))
+		case 6:
+			var mp curve.MontgomeryPoint
+			mp.SetEdwards(P)
+			return append([]byte(nil), mp[:]...)
+		case 7:
+			b, err := sh.rpts[op.K%2].MarshalBinary()
+			if err != nil {
+				return []byte("ERR")
+			}
+			return b
+		default:
+			var c curve.CompressedRistretto
+			c.SetRistrettoPoint(curve.NewRistrettoPoint().Add(sh.rpts[op.K%2], sh.rpts[(op.K+1)%2]))
+			return append([]byte(nil), c[:]...)
+		}
 	case "vrfprove":
 		sk := m.privs[op.K%6]
 		var (
